@@ -1,4 +1,5 @@
 #!/usr/bin/env python3
+import re
 """Generates shims/typst_gen.rs: SyntaxKind, the typed AST node wrappers and their cast tables.
 The tables are copied from typst-syntax 0.13.1 (kind.rs, ast.rs) and re-checked against the real crate by
 conformance/ (thorough tier).  Run: python3 shims/gen_typst.py > shims/typst_gen.rs
@@ -41,7 +42,7 @@ def SN(n):
     return 'VpNone' if n == 'None' else n
 
 
-def main():
+def main(stub=False):
     o = []
     w = o.append
     w('// ---- shims/typst_gen.rs : GENERATED by shims/gen_typst.py from typst-syntax 0.13.1 (kind.rs, ast.rs) -- TRUSTED tables ----')
@@ -96,7 +97,7 @@ def main():
     w('    open spec fn castable(node: &SyntaxNode) -> bool { expr_kind(node.kind_s()) }')
     w("    open spec fn node(self) -> &'a SyntaxNode { match self { %s } }" % ' '.join('Expr::%s(v) => v.0,' % v for v, _ in EXPR))
     w('    open spec fn wf(self) -> bool { match self { %s } }' % ' '.join('Expr::%s(v) => v.wf(),' % v for v, _ in EXPR))
-    w("    fn from_untyped(node: &'a SyntaxNode) -> (r: Option<Self>) {")
+    w(("    #[verifier::external_body] " if stub else "    ") + "fn from_untyped(node: &'a SyntaxNode) -> (r: Option<Self>) {")
     w('        match node.kind() {')
     for v, t in EXPR:
         if v in EXPR_NOT_CAST:
@@ -131,7 +132,7 @@ def main():
             excl = ' && '.join('v.node().kind_s() != SyntaxKind::%s' % t for _, t in arms)
             wfarms.append('%s::%s(v) => v.wf() && %s,' % (name, fb[0], excl))
         w('    open spec fn wf(self) -> bool { match self { %s } }' % ' '.join(wfarms))
-        w("    fn from_untyped(node: &'a SyntaxNode) -> (r: Option<Self>) {")
+        w(("    #[verifier::external_body] " if stub else "    ") + "fn from_untyped(node: &'a SyntaxNode) -> (r: Option<Self>) {")
         w('        match node.kind() {')
         for v, t in arms:
             w('            SyntaxKind::%s => Some(%s::%s(%s(node))),' % (t, name, v, t))
@@ -145,8 +146,14 @@ def main():
         w('}')
     w('} // mod ast')
     w('pub use ast::AstNode;')
-    print('\n'.join(o))
+    txt = '\n'.join(o)
+    if stub:
+        # contract-only variant: the cast functions are verified once in unit u_shims, assumed elsewhere
+        txt = re.sub(r"^(\s*)(fn (from_untyped|to_untyped)\(.*?\) -> \(r: [^)]*\)) \{.*\}$", r"\1#[verifier::external_body] \2 { unimplemented!() }", txt, flags=re.M)
+        txt = txt.replace('// ---- shims/typst_gen.rs', '// ---- shims/typst_gen_stub.rs (bodies verified in unit u_shims)')
+    print(txt)
 
 
 if __name__ == '__main__':
-    main()
+    import sys
+    main(stub='--stub' in sys.argv)
